@@ -500,11 +500,16 @@ def split_nonempty(ctx, rule):
         facts_.append((gbi, bt, e[1], l, r))
     for (bi, st, length) in aggs:
         lin = _linear(length, atoms)
-        key = "half-nonempty:%s" % ("second" if lin and len(lin[0]) > 1 else "first")
+        # which word does this half belong to?  (offset field copied from w1 = arg 2 or w2 = arg 3)
+        e_ = sy.rvalue(st["rv"])
+        d_ = dict(zip(e_[4], e_[3]))
+        op_ = U.field_path(d_.get("offset"))
+        second = bool(op_ and op_[0] == "arg" and op_[1] == 3)
+        key = "half-nonempty:%s" % ("second" if second else "first")
         if lin is None:
             ctx.fail(rule, key, where(sp, bi, st), "span length of a split half is not linear: %s (fail closed)" % S.show(length, sp))
             continue
-        if len(lin[0]) <= 1:
+        if not second:
             # first half: (0, w1.len()) — non-empty because tokenised words are non-empty (C15), not decided here
             ctx.ok(rule, key, where(sp, bi, st), "first half spans the whole first word (non-empty by tokenisation, C15)")
             continue
@@ -531,6 +536,8 @@ def split_nonempty(ctx, rule):
                 fdiff = {k_: -v for k_, v in diff.items()}
             if fdiff == lin[0] and lb + lin[1] >= 1:
                 proved = True
+        if not proved and not (lin[0] and all(isinstance(k_, tuple) and k_ and k_[0] in ("field", "call") for k_ in lin[0])):
+            proved = False
         if proved:
             ctx.ok(rule, key, where(sp, bi, st), "the dominating guard implies that the second half of a joined match spans at least "
                    "one character", {"length": S.show(length, sp)}, nontrivial=True, kind="S")
@@ -538,3 +545,22 @@ def split_nonempty(ctx, rule):
             ctx.fail(rule, key, where(sp, bi, st), "no dominating guard implies that the second half of a joined match (`%s`) is non-empty"
                      % S.show(length, sp), {"witness": "title 'micro biology', query 'microx': an empty highlighted span before 'biology'"},
                      kind="S")
+
+
+def dividers_writers(ctx, rule):
+    """R09.h: the configured marker pair is written only by its setter and by the constructor"""
+    from . import r_state as RS
+    store = RS._store_adt(ctx)
+    if store is None:
+        return
+    sid = store["id"]
+    eff = ctx.eff
+    writers = sorted(bid for bid, e in eff.direct.items() if (sid, "dividers") in e)
+    key = "dividers-writers"
+    extra = [w for w in writers if not w.endswith(("Store::highlight_with", "Store::new"))]
+    if not extra and writers:
+        ctx.ok(rule, key, "-", "Store.dividers is written only by %s" % writers, nontrivial=True)
+    else:
+        ctx.fail(rule, key, ctx.facts.bodies[extra[0]].where() if extra else "-",
+                 "Store.dividers is also written by %s: the configured markers are silently replaced" % extra,
+                 {"witness": "highlight_with(..); clear(); add; search: hits are decorated with the default markers"})
